@@ -5,8 +5,63 @@ import (
 
 	"pgregory.net/rapid"
 
+	api "github.com/yorkie-team/yorkie/api/yorkie/v1"
+	"github.com/yorkie-team/yorkie/client"
+	"github.com/yorkie-team/yorkie/pkg/document"
+
 	"verifharness/prog"
+	"verifharness/world"
 )
+
+// withGCFree adds GC-free attachments (client.WithDisableGC, never the first
+// attacher) to a run when the program carries a "gcfree" mask: the attachments
+// whose index is in the mask keep no version-vector row and are synchronised
+// by lamport only; by their contract they produce no tombstones, so their
+// edits are confined to counter increases and primitive root values.
+func withGCFree(p prog.Program, o prog.RunOpts) prog.RunOpts {
+	mask := p.Cfg.Flags["gcfree"]
+	if mask == 0 {
+		return o
+	}
+	gcFree := map[int]bool{}
+	o.NonParticipant = func(q *prog.Peer) bool { return gcFree[q.Idx] }
+	prevMake := o.MakeGuard
+	o.MakeGuard = func(r *prog.Runner) prog.Guard {
+		contract := func(d *document.Document, s prog.Step) (prog.Step, string) {
+			for _, q := range r.Peers {
+				if q.D == d && gcFree[q.Idx] && s.Op != "cinc" && s.Op != "rootset" && s.Op != "pset" && s.Op != "pclear" {
+					ns := s
+					ns.Op = "cinc"
+					return ns, "gcfree-contract"
+				}
+			}
+			return s, ""
+		}
+		if prevMake != nil {
+			return prog.Chain(contract, prevMake(r))
+		}
+		return contract
+	}
+	o.AttachOpts = func(i int) []interface{} {
+		if mask&(1<<uint(i%16)) != 0 {
+			return []interface{}{client.WithDisableGC()}
+		}
+		return nil
+	}
+	prevEx := o.OnExchange
+	o.OnExchange = func(r *prog.Runner, pe *prog.Peer, ex *world.Exchange) {
+		if m, ok := ex.Req.(*api.AttachDocumentRequest); ok {
+			gcFree[pe.Idx] = m.DisableGc
+			if m.DisableGc {
+				r.Ev["gcfree_attachment"]++
+			}
+		}
+		if prevEx != nil {
+			prevEx(r, pe, ex)
+		}
+	}
+	return o
+}
 
 // twinRun executes p and a variant of p and compares the contents after each
 // quiescent round. Actor ids must sort in activation order in both runs for
@@ -71,8 +126,8 @@ func evalC02(p prog.Program) Outcome {
 	b.Cfg.Interval, b.Cfg.Threshold = 1000, 1000
 	g := guardFor("C02", p)
 	out, ra, _ := twinRun(p, b,
-		prog.RunOpts{ProjTag: "c02", Guard: g, Rebuild: true},
-		prog.RunOpts{ProjTag: "c02", Guard: g}, "SNAPSHOT!=REPLAY", true)
+		withGCFree(p, prog.RunOpts{ProjTag: "c02", Guard: g, Rebuild: true}),
+		withGCFree(p, prog.RunOpts{ProjTag: "c02", Guard: g}), "SNAPSHOT!=REPLAY", true)
 	if out.Fail == nil {
 		out.NonTrivial = ra.Ev["snapshot_pull"] > 0 && ra.Ev["pull_on_snapshot_fed"] > 0
 	}
@@ -90,6 +145,40 @@ func genC02() *rapid.Generator[prog.Program] {
 		p.Cfg.ServerNoGC = rapid.IntRange(0, 4).Draw(t, "snogc") == 0
 		if rapid.IntRange(0, 3).Draw(t, "serial") == 0 {
 			p.Cfg.Flags = map[string]int{"serial": 1}
+		} else if rapid.IntRange(0, 3).Draw(t, "gcfree") == 0 {
+			// a quarter of the concurrent cases: some attachments (never the first) are GC-free
+			p.Cfg.Flags = map[string]int{"gcfree": rapid.IntRange(1, 127).Draw(t, "mask") << 1}
+		}
+		// a tenth of the cases end in GC-free episodes: client 1 is attached
+		// GC-free, has a change of its own in the document, stays away while
+		// the others set and DELETE root keys (more changes than the snapshot
+		// threshold), comes back (served by snapshot) and at once writes the
+		// deleted keys again (last-writer-wins against tombstones that some
+		// replicas have purged and others still hold).
+		if rapid.IntRange(0, 9).Draw(t, "gcfreeepisode") == 0 {
+			p.Cfg.Flags = map[string]int{"gcfree": 1 << 1}
+			p.Cfg.Threshold = int64(rapid.IntRange(1, 3).Draw(t, "gfthreshold"))
+			p.Cfg.Interval = int64(rapid.IntRange(1, 4).Draw(t, "gfinterval"))
+			sync := func(w int) prog.Step { return prog.Step{Who: w, Op: "sync"} }
+			for e := rapid.IntRange(1, 2).Draw(t, "gfepisodes"); e > 0; e-- {
+				p.Steps = append(p.Steps, prog.Step{Op: "round"}, prog.Step{Who: 1, Op: "rootset", A: 1, B: rapid.IntRange(0, 7).Draw(t, "b")}, sync(1))
+				for k := int(p.Cfg.Threshold) + rapid.IntRange(1, 3).Draw(t, "more"); k > 0; k-- {
+					w := []int{0, 2}[rapid.IntRange(0, 1).Draw(t, "w")] % p.Cfg.N
+					if w == 1 {
+						w = 0
+					}
+					p.Steps = append(p.Steps, prog.Step{Who: w, Op: rapid.SampledFrom([]string{"rootset", "rootdel", "rootdel", "oset", "cinc"}).Draw(t, "op"),
+						A: rapid.IntRange(0, 1).Draw(t, "a"), B: rapid.IntRange(0, 7).Draw(t, "b")}, sync(w))
+				}
+				p.Steps = append(p.Steps, prog.Step{Who: 0, Op: "rootdel", A: 0}, sync(0), sync(0))
+				if p.Cfg.N > 2 {
+					p.Steps = append(p.Steps, sync(2))
+				}
+				p.Steps = append(p.Steps, sync(1),
+					prog.Step{Who: 1, Op: "rootset", A: 0, B: rapid.IntRange(0, 7).Draw(t, "b2")},
+					prog.Step{Who: 1, Op: "rootset", A: 1, B: rapid.IntRange(0, 7).Draw(t, "b3")}, sync(1), prog.Step{Op: "round"})
+			}
+			return p
 		}
 		// an eighth of the cases: a forced compaction (everybody re-attaches)
 		// after a short prefix, so that the new log outgrows the old head and
